@@ -146,10 +146,22 @@ theorem updateIntermediate_spec (g : Graph V) (hwf : WF g) (s : St V) (hJ : J g 
     · exact (a k hk).congr rfl (fun _ _ => rfl) rfl
     · simp
 
-theorem step_inv (g : Graph V) (hwf : WF g) (s : St V) (o : Op V) (hI : Inv g s) (ho : o ≠ .xexit) :
+theorem step_inv (g : Graph V) (hwf : WF g) (s : St V) (o : Op V) (hI : Inv g s) :
     Inv g (step g s o) := by
   cases o with
-  | xexit => exact absurd rfl ho
+  | xexit =>
+    unfold step
+    cases hst : s.stack with
+    | nil => simp only []; exact hI
+    | cons old rest =>
+      simp only []
+      have hso := hI.stack
+      rw [hst] at hso
+      have hJ0 : J g { s with suspended := old, stack := rest } := hI.j
+      obtain ⟨a, b, c, d, _⟩ := updateIntermediate_spec g hwf _ hJ0
+      refine ⟨a, ?_, ?_⟩
+      · rw [c, d]; exact hso.2
+      · intro h; rw [c] at h; exact b h
   | enter =>
     exact ⟨hI.j, ⟨rfl, hI.stack⟩, fun h => by simp [step] at h⟩
   | assign k v =>
